@@ -222,6 +222,10 @@ func (t *Type) EncodeColumn(w *refwire.W, vals []any) {
 
 func (t *Type) encodeState(w *refwire.W) {
 	switch t.Kind {
+	case String:
+		if t.Base == "JSON" {
+			w.U64(1) // JSON-as-string serialization version
+		}
 	case LowCard:
 		w.U64(1) // shared dictionaries with additional keys
 		t.Elems[0].encodeState(w)
@@ -383,6 +387,12 @@ func (t *Type) DecodeColumn(r *refwire.R, rows int) []any {
 
 func (t *Type) decodeState(r *refwire.R) {
 	switch t.Kind {
+	case String:
+		if t.Base == "JSON" {
+			if v := r.U64(); v != 1 && r.Err == nil {
+				r.Err = fmt.Errorf("refcol: JSON serialization version %d", v)
+			}
+		}
 	case LowCard:
 		if v := r.U64(); v != 1 && r.Err == nil {
 			r.Err = fmt.Errorf("refcol: low cardinality serialization version %d", v)
